@@ -77,6 +77,15 @@ CHECKS = {
             "deterministic rounds bypass only the timer and pressure gates of compactor/background.rs; aggregates are not compared across crash "
             "restarts (C01's WAL double count would mask)",
             "DESIGN.md §4 C05"),
+    "C11": ("fault_enumeration",
+            "runtime monitoring: file-system monitor (sha256 manifests + decoded segments.idx + live list) over the crash histories",
+            "The C01 templates are replayed with an @fs observation after every command, hook-side manifests at every flush/compaction step "
+            "point, and after every crash (each segment-touching step point x first/last hit, SIGKILL) + restart; the monitor asserts that "
+            "files of a published segment never change while it is published, that a directory left unpublished by an earlier lifetime "
+            "is never published later, and that everything named by the live list or index is complete.",
+            "completeness is file presence/non-emptiness of .zones/.idx/.icx and core column files per uid (payload columns of optional "
+            "fields may legitimately be absent); instants inside one syscall are not distinguishable for a process crash",
+            "DESIGN.md §4 C11"),
 }
 
 PENDING_REASON = "check not built yet in this session (see DESIGN.md §10 for the order); no claim is made"
